@@ -1,3 +1,117 @@
+/-
+  C09 — normalization picks composed/decomposed forms per font support
+  (and the normalizer part of C08: decomposition and reordering keep canonical equivalence).
+
+  Model: RbModel/Norm.lean (ot_shape_normalize.rs, unicode.rs).  Unicode data: RbModel/Gen/Norm.lean
+  (dumped from the compiled crate), reference: RbModel/Gen/NormRef.lean (CPython unicodedata).
+  Font support is an arbitrary function `F.glyph : Nat → Option Nat`.
+-/
 import RbModel.Norm
+import RbModel.Lemmas.Norm
+import RbModel.Gen.Norm
+import RbModel.Gen.NormRef
+
 namespace RbModel.Props.C09
+open RbModel.Norm RbModel.Gen
+
+set_option maxRecDepth 100000
+
+/-! ## generated tables -/
+
+/-- the four canonical pair mappings with a non-starter first character, which Unicode excludes from
+    composition (Full_Composition_Exclusion; commented out in CompositionExclusions.txt) and HarfBuzz
+    does not compose, but `unicode_norm.rs::COMPOSITION_TABLE` contains -/
+def nonStarterPairs : List (Nat × Nat) :=
+  [(0x308 * 2 ^ 32 + 0x301, 0x344), (0xF71 * 2 ^ 32 + 0xF72, 0xF73), (0xF71 * 2 ^ 32 + 0xF74, 0xF75),
+   (0xF71 * 2 ^ 32 + 0xF80, 0xF81)]
+
+/- Full-strength statement (FALSE of the current crate, see `known_C09_comp_has_excluded_pairs`):
+   theorem C09_tables_match_ref :
+     Norm.decompTable = mergeKeys _ NormRef.decompTable NormRef.newDecomp ∧
+     Norm.compTable = mergeKeys _ NormRef.compTable NormRef.newComp -/
+
+/-- The crate's tables restricted to characters assigned in the reference's Unicode version are the
+    reference's: the decomposition table is the key-ordered merge of CPython's canonical mappings with
+    the rows of characters unassigned there; the composition table is the merge of CPython's primary
+    composites, the rows of unassigned characters and the four non-starter pairs (the finding). -/
+theorem C09_tables_match_ref_partial :
+    Norm.decompTable = mergeKeys 3000 NormRef.decompTable NormRef.newDecomp ∧
+    Norm.compTable = mergeKeys 2000 (mergeKeys 2000 NormRef.compTable NormRef.newComp) nonStarterPairs := by
+  have h1 : (Norm.decompTable == mergeKeys 3000 NormRef.decompTable NormRef.newDecomp) = true := by
+    decide +kernel
+  have h2 : (Norm.compTable ==
+      mergeKeys 2000 (mergeKeys 2000 NormRef.compTable NormRef.newComp) nonStarterPairs) = true := by
+    decide +kernel
+  exact ⟨eq_of_beq h1, eq_of_beq h2⟩
+
+/-- counter-example to the full statement: the crate composes the excluded pairs, the reference lists
+    them as composition exclusions (witness replayed on the crate by `./check C09`: `norm compose 776 769`) -/
+theorem known_C09_comp_has_excluded_pairs :
+    (∀ r ∈ nonStarterPairs, lookup Norm.compTable r.1 = some r.2 ∧ lookup NormRef.exclTable r.1 = some r.2 ∧
+      lookup NormRef.compTable r.1 = none) := by
+  decide +kernel
+
+theorem decompTable_sorted : sortedKeys Norm.decompTable = true := by decide +kernel
+theorem compTable_sorted : sortedKeys Norm.compTable = true := by decide +kernel
+
+theorem comp_rows_in_decomp :
+    isSubseq (msort 12 (Norm.compTable.map (fun r => (r.2, r.1 / 2 ^ 32, r.1 % 2 ^ 32)))) Norm.decompTable = true := by
+  decide +kernel
+
+/-- Consistency of the crate's tables: both are strictly sorted by key, hence the binary searches of
+    `unicode::compose` / `unicode::decompose` return the row with that key, if any (generic lemma
+    `bsearchGo_eq_lookup`); and composition is the inverse of decomposition: a table hit
+    `compose(a, b) = c` implies the table row `decompose(c) = (a, b)`. -/
+theorem C09_tables_consistent :
+    sortedKeys Norm.decompTable = true ∧ sortedKeys Norm.compTable = true ∧
+    (∀ k, bsearch Norm.decompTable.toArray k = lookup Norm.decompTable k) ∧
+    (∀ k, bsearch Norm.compTable.toArray k = lookup Norm.compTable k) ∧
+    (∀ a b c, b < 2 ^ 32 → lookup Norm.compTable (a * 2 ^ 32 + b) = some c →
+      lookup Norm.decompTable c = some (a, b)) := by
+  refine ⟨decompTable_sorted, compTable_sorted, ?_, ?_, ?_⟩
+  · intro k
+    exact bsearchGo_eq_lookup _ (sortedKeys_pairwise decompTable_sorted) k _ 0 _ (by simp) (by simp)
+      (fun i hi _ => ⟨Nat.zero_le _, by simpa using hi⟩)
+  · intro k
+    exact bsearchGo_eq_lookup _ (sortedKeys_pairwise compTable_sorted) k _ 0 _ (by simp) (by simp)
+      (fun i hi _ => ⟨Nat.zero_le _, by simpa using hi⟩)
+  · intro a b c hb h
+    have hm := lookup_mem h
+    have h1 : (c, (a * 2 ^ 32 + b) / 2 ^ 32, (a * 2 ^ 32 + b) % 2 ^ 32) ∈
+        Norm.compTable.map (fun r => (r.2, r.1 / 2 ^ 32, r.1 % 2 ^ 32)) :=
+      List.mem_map.mpr ⟨_, hm, rfl⟩
+    have h2 := isSubseq_mem comp_rows_in_decomp _ ((mem_msort _ _ _).mpr h1)
+    have h3 := lookup_of_mem_sorted decompTable_sorted h2
+    have e1 : (a * 2 ^ 32 + b) / 2 ^ 32 = a := by omega
+    have e2 : (a * 2 ^ 32 + b) % 2 ^ 32 = b := by omega
+    rw [e1, e2] at h3
+    exact h3
+
+example : lookup Norm.compTable (0x41 * 2 ^ 32 + 0x300) = some 0xC0 := by decide +kernel
+
+/-! ## Hangul arithmetic (unicode.rs::compose_hangul / decompose_hangul) -/
+
+/- Full-strength statement (FALSE of the current crate, see `known_C09_hangul_tbase`):
+   theorem C09_hangul_roundtrip :
+     (∀ s a b, s < 2 ^ 32 → decomposeHangul genH s = some (a, b) → composeHangul genH a b = some s) ∧
+     (∀ a b s, composeHangul genH a b = some s → decomposeHangul genH s = some (a, b)) -/
+
+/-- Every Hangul decomposition composes back, and every Hangul composition decomposes back to its two
+    arguments — except when the second argument is `T_BASE` itself (U+11A7, not a trailing consonant),
+    which `compose_hangul` accepts (`T_BASE <= v`; HarfBuzz tests `TBASE < b`). -/
+theorem C09_hangul_roundtrip_partial :
+    (∀ s a b, s < 2 ^ 32 → decomposeHangul genH s = some (a, b) → composeHangul genH a b = some s) ∧
+    (∀ a b s, b ≠ genH.tBase → composeHangul genH a b = some s → decomposeHangul genH s = some (a, b)) :=
+  ⟨fun s a b hs h => hangul_rt1 genH genH_std s a b hs h,
+   fun a b s hb h => hangul_rt2 genH genH_std a b s hb h⟩
+
+example : decomposeHangul genH 0xAC01 = some (0xAC00, 0x11A8) ∧ composeHangul genH 0xAC00 0x11A8 = some 0xAC01 := by
+  decide
+
+/-- counter-example to the full statement: LV + U+11A7 "composes" to LV itself, i.e. U+11A7 would be
+    swallowed (witness replayed on the crate by `./check C09`: `norm compose 44032 4519`) -/
+theorem known_C09_hangul_tbase :
+    composeHangul genH 0xAC00 0x11A7 = some 0xAC00 ∧ decomposeHangul genH 0xAC00 = some (0x1100, 0x1161) := by
+  decide
+
 end RbModel.Props.C09
